@@ -282,6 +282,16 @@ Set const& exponents()
     return v;
 }
 
+template <typename T>
+constexpr T max_of()
+{
+    return std::numeric_limits<T>::max();
+}
+template <typename T>
+constexpr T min_of()
+{
+    return std::numeric_limits<T>::min();
+}
 template <typename T, T Base>
 void ipow_fixed(Ctx& c)
 {
@@ -297,7 +307,7 @@ void ipow_fixed(Ctx& c)
             return out;
         },
         [](V e) -> std::string {
-            std::string s = (Base == T(2)) ? "base_2" : "base_other";
+            std::string s = (Base == T(2)) ? "base_2" : (Base == T(0) ? "base_0" : (Base == T(1) ? "base_1" : ((Base > T(0) && (Base & (Base - T(1))) == T(0)) ? "base_power_of_two" : "base_other")));
             if (e == 0) { s += "+exp_0"; }
             return s;
         },
@@ -331,12 +341,28 @@ void ipows(Ctx& c)
             },
             [](V b, V e) { return e >= 2 && iabs(b) >= 2; }},
         sp);
+    // bases 0 and 1, the other small powers of two and the largest base of the type (added after seeded breakage
+    // c14_ipow_base0_power_of_two: the shift shortcut was generalised to "every power of two", tested as
+    // Base >= 0 && (Base & (Base - 1)) == 0, which admits 0: ipow<0>(n) became 1)
+    ipow_fixed<T, T(0)>(c);
+    ipow_fixed<T, T(1)>(c);
     ipow_fixed<T, T(2)>(c);
     ipow_fixed<T, T(3)>(c);
+    ipow_fixed<T, T(4)>(c);
+    ipow_fixed<T, T(5)>(c);
+    ipow_fixed<T, T(6)>(c);
+    ipow_fixed<T, T(7)>(c);
+    ipow_fixed<T, T(8)>(c);
     ipow_fixed<T, T(10)>(c);
+    ipow_fixed<T, T(16)>(c);
+    ipow_fixed<T, T(64)>(c);
+    ipow_fixed<T, max_of<T>()>(c);
     if constexpr (std::is_signed_v<T>) {
+        ipow_fixed<T, T(-1)>(c);
         ipow_fixed<T, T(-2)>(c);
         ipow_fixed<T, T(-3)>(c);
+        ipow_fixed<T, T(-4)>(c);
+        ipow_fixed<T, min_of<T>()>(c);
     }
 }
 
